@@ -240,7 +240,13 @@ def vfs_open(file, mode="r", *a, **k):
         return _real_open(file, mode, *a, **k)
     p = _norm(file)
     if "b" in mode:
-        raise NotImplementedError("binary mode on the VFS")
+        if any(c in mode for c in "wax+"):
+            raise NotImplementedError("binary write mode on the VFS")
+        op("open", p)
+        if p not in fs.files:
+            raise _enoent(p)
+        op("read", p)
+        return io.BytesIO(fs.files[p].encode("utf8"))
     op("open", p)
     if fs.crashed:
         return WriteHandle(p, mode) if ("a" in mode or "w" in mode) else ReadHandle(p)
